@@ -185,6 +185,72 @@ Proof.
     exists k. apply Hex in Hpre; [|exact Hk]. split; [lia|]. split; [exact Hk|reflexivity].
 Qed.
 
+(* the number of reported ranks is the number of occurrences *)
+Definition occursb (t p : list N) (i : nat) : bool :=
+  match cmp_sp (suffix t i) p with Eq => true | _ => false end.
+
+Lemma occursb_spec t p i : i < length t -> (occursb t p i = true <-> occurs t p i).
+Proof.
+  intros Hi. unfold occursb, occurs. rewrite <- cmp_sp_eq.
+  destruct (cmp_sp (suffix t i) p); split; try tauto; try discriminate; intros [_ H]; discriminate.
+Qed.
+
+Lemma nodup_app_l {A} (a b : list A) : NoDup (a ++ b) -> NoDup a.
+Proof.
+  induction a as [|x a IH]; cbn [app]; intros H; [constructor|].
+  inversion H as [|? ? Hni Hnd]; subst. constructor; [|apply IH; exact Hnd].
+  intros Hin. apply Hni. apply in_or_app. left; exact Hin.
+Qed.
+Lemma nodup_app_r {A} (a b : list A) : NoDup (a ++ b) -> NoDup b.
+Proof.
+  induction a as [|x a IH]; cbn [app]; intros H; [exact H|].
+  inversion H; subst. apply IH; assumption.
+Qed.
+
+Theorem search_count_exact_proof t sa p l c :
+  is_sa t sa -> search t sa p = (l, c) ->
+  c = length (filter (occursb t p) (seq 0 (length t))).
+Proof.
+  intros Hsa E. pose proof (search_all_and_only_proof t sa p l c Hsa E) as Hall.
+  unfold search in E. destruct (search_range t sa p) as [l' r] eqn:Er. injection E as <- <-.
+  destruct (search_exact_proof t sa p l' r Hsa Er) as (Hlr & _).
+  assert (Hlen : length (firstn (r - l') (skipn l' sa)) = r - l').
+  { rewrite firstn_length, skipn_length. lia. }
+  rewrite <- Hlen. apply Permutation_length. apply NoDup_Permutation.
+  - destruct Hsa as [HP _].
+    assert (Hnd : NoDup sa) by (eapply Permutation_NoDup; [apply Permutation_sym; exact HP|apply seq_NoDup]).
+    rewrite <- (firstn_skipn l' sa) in Hnd. apply nodup_app_r in Hnd.
+    rewrite <- (firstn_skipn (r - l') (skipn l' sa)) in Hnd. apply nodup_app_l in Hnd. exact Hnd.
+  - apply NoDup_filter. apply seq_NoDup.
+  - intros i. rewrite Hall, filter_In, in_seq. split.
+    + intros H. pose proof H as [Hi _]. split; [lia|]. apply occursb_spec; assumption.
+    + intros [Hi H]. apply occursb_spec; [lia|exact H].
+Qed.
+
+(* the compressor's copy of the search loops agrees with the modelled ones on every array *)
+Lemma bsearch_ext f g : forall fuel l r,
+  (forall i, i < r -> f i = g i) -> bsearch fuel f l r = bsearch fuel g l r.
+Proof.
+  induction fuel as [|fuel IH]; intros l r H; cbn [bsearch]; [reflexivity|].
+  destruct (Nat.ltb_spec l r) as [Hlt|Hge]; [|reflexivity].
+  assert (Hmid : l + (r - l) / 2 < r).
+  { assert ((r - l) / 2 < r - l) by (apply Nat.div_lt; lia). lia. }
+  rewrite <- (H _ Hmid). destruct (f (l + (r - l) / 2)).
+  - apply IH. exact H.
+  - apply IH. intros i Hi. apply H. lia.
+Qed.
+
+Theorem wrapper_search_same_proof t sa p :
+  p <> [] -> w_find_pattern_range t sa p = search_range t sa p.
+Proof.
+  intros Hp. unfold w_find_pattern_range, search_range.
+  destruct p as [|y p]; [contradiction|]. destruct sa as [|s0 sa']; [reflexivity|].
+  set (sa := s0 :: sa'). set (pp := y :: p).
+  unfold w_lower_bound, w_upper_bound, lower_bound, upper_bound, sp_at. f_equal.
+  - apply bsearch_ext. intros i Hi. rewrite (nth_error_nth' sa 0 Hi). reflexivity.
+  - apply bsearch_ext. intros i Hi. rewrite (nth_error_nth' sa 0 Hi). reflexivity.
+Qed.
+
 Example search_banana :
   search [98;97;110;97;110;97]%N [5;3;1;0;4;2] [97;110]%N = (1, 2).
 Proof. vm_compute. reflexivity. Qed.
